@@ -1,3 +1,685 @@
-use crate::ctx::Ctx;
-pub fn run_c18(_ctx: &mut Ctx) { unimplemented!() }
-pub fn run_c19(_ctx: &mut Ctx) { unimplemented!() }
+//! C18 (serialisation round-trips) and C19 (deserialisation accepts only consistent documents, never panics).
+use crate::ctx::*;
+use crate::model::{shapes, windows};
+use serde::de::DeserializeOwned;
+use serde::Serialize;
+use std::fmt::Debug;
+use toodee::*;
+
+fn nsel(ctx: &Ctx, miri_q: usize, miri_t: usize, vg: usize, quick: usize, thorough: usize) -> usize {
+    match (ctx.scale, ctx.tier) {
+        (Scale::Miri, Tier::Quick) => miri_q,
+        (Scale::Miri, Tier::Thorough) => miri_t,
+        (Scale::Vg, _) => vg,
+        (Scale::Native, Tier::Quick) => quick,
+        (Scale::Native, Tier::Thorough) => thorough,
+    }
+}
+
+/// The C01 predicate for arbitrary element types (no model).
+pub fn shape_ok<T>(a: &TooDee<T>) -> Result<(), String> {
+    let (c, r) = (a.num_cols(), a.num_rows());
+    let l = a.data().len();
+    if c.checked_mul(r) != Some(l) {
+        return Err(format!("size ({},{}) but data.len() {}", c, r, l));
+    }
+    if (c == 0) != (r == 0) {
+        return Err(format!("exactly one zero dimension: ({},{})", c, r));
+    }
+    if a.rows().len() != r || a.cells().len() != l {
+        return Err(format!("rows().len() {} cells().len() {}", a.rows().len(), a.cells().len()));
+    }
+    for i in 0..c {
+        if a.col(i).len() != r {
+            return Err(format!("col({}).len() {}", i, a.col(i).len()));
+        }
+    }
+    Ok(())
+}
+
+// ================================================================================================
+// C18
+
+pub trait Gen: Sized {
+    const NAME: &'static str;
+    fn gen(rng: &mut Rng) -> Self;
+}
+impl Gen for u32 {
+    const NAME: &'static str = "u32";
+    fn gen(rng: &mut Rng) -> u32 {
+        *rng.pick(&[0, 1, 7, u32::MAX, 1 << 31, 42, 1000000])
+    }
+}
+impl Gen for i64 {
+    const NAME: &'static str = "i64";
+    fn gen(rng: &mut Rng) -> i64 {
+        *rng.pick(&[0, -1, 1, i64::MIN, i64::MAX, -42, 1 << 40])
+    }
+}
+const STRS: [&str; 12] = ["", "a", "num_cols", "data", "\"quoted\"", "back\\slash", "line\nbreak\ttab", "\u{0}\u{1f}", "\u{1F600} emoji", "{\"num_rows\":1}", "é\u{2028}", "]},"];
+impl Gen for String {
+    const NAME: &'static str = "String";
+    fn gen(rng: &mut Rng) -> String {
+        rng.pick(&STRS).to_string()
+    }
+}
+impl Gen for Option<u32> {
+    const NAME: &'static str = "Option<u32>";
+    fn gen(rng: &mut Rng) -> Option<u32> {
+        if rng.chance(1, 3) {
+            None
+        } else {
+            Some(u32::gen(rng))
+        }
+    }
+}
+impl Gen for Vec<i32> {
+    const NAME: &'static str = "Vec<i32>";
+    fn gen(rng: &mut Rng) -> Vec<i32> {
+        (0..rng.below(4)).map(|_| *rng.pick(&[0, -1, i32::MAX, i32::MIN, 5])).collect()
+    }
+}
+impl Gen for (u8, String) {
+    const NAME: &'static str = "(u8,String)";
+    fn gen(rng: &mut Rng) -> (u8, String) {
+        (rng.below(256) as u8, String::gen(rng))
+    }
+}
+
+const ENC: [&str; 4] = ["to_string", "to_vec", "to_writer", "to_value"];
+const DEC: [&str; 4] = ["from_str", "from_slice", "from_reader", "from_value"];
+
+fn encode<S: Serialize>(x: &S, enc: usize) -> Result<Vec<u8>, String> {
+    match enc {
+        0 => serde_json::to_string(x).map(|s| s.into_bytes()).map_err(|e| e.to_string()),
+        1 => serde_json::to_vec(x).map_err(|e| e.to_string()),
+        2 => {
+            let mut w = Vec::new();
+            serde_json::to_writer(&mut w, x).map_err(|e| e.to_string())?;
+            Ok(w)
+        }
+        _ => {
+            let v = serde_json::to_value(x).map_err(|e| e.to_string())?;
+            Ok(v.to_string().into_bytes())
+        }
+    }
+}
+
+fn decode<T: DeserializeOwned>(bytes: &[u8], dec: usize) -> Result<TooDee<T>, String> {
+    match dec {
+        0 => serde_json::from_str(std::str::from_utf8(bytes).map_err(|e| e.to_string())?).map_err(|e| e.to_string()),
+        1 => serde_json::from_slice(bytes).map_err(|e| e.to_string()),
+        2 => serde_json::from_reader(std::io::Cursor::new(bytes)).map_err(|e| e.to_string()),
+        _ => {
+            let v: serde_json::Value = serde_json::from_slice(bytes).map_err(|e| format!("not JSON: {}", e))?;
+            serde_json::from_value(v).map_err(|e| e.to_string())
+        }
+    }
+}
+
+fn roundtrip_owned<T: Gen + Serialize + DeserializeOwned + PartialEq + Debug + Clone>(ctx: &mut Ctx, c: usize, r: usize, rng: &mut Rng) {
+    let data: Vec<T> = (0..c * r).map(|_| T::gen(rng)).collect();
+    let a = TooDee::from_vec(c, r, data);
+    for enc in 0..4 {
+        let bytes = match catches(|| encode(&a, enc)) {
+            Ok(Ok(b)) => b,
+            Ok(Err(e)) => {
+                ctx.violation(ENC[enc], "serde:encode-failed", format!("{} {}x{}: {}", T::NAME, c, r, e));
+                continue;
+            }
+            Err(m) => {
+                ctx.violation(ENC[enc], "serde:encode-panicked", format!("{} {}x{}: {}", T::NAME, c, r, m));
+                continue;
+            }
+        };
+        for dec in 0..4 {
+            ctx.count("calls", 1);
+            let what = || format!("{} {}x{} {}->{} doc={}", T::NAME, c, r, ENC[enc], DEC[dec], String::from_utf8_lossy(&bytes[..bytes.len().min(160)]));
+            match catches(|| decode::<T>(&bytes, dec)) {
+                Err(m) => ctx.violation(DEC[dec], "serde:decode-panicked", format!("{}: {}", what(), m)),
+                Ok(Err(e)) => ctx.violation(DEC[dec], "serde:roundtrip-rejected", format!("{}: {}", what(), e)),
+                Ok(Ok(b)) => {
+                    if b != a || b.size() != a.size() || b.data() != a.data() {
+                        ctx.violation(DEC[dec], "serde:roundtrip-differs", format!("{}: got size {:?} data {:?}", what(), b.size(), &b.data()[..b.data().len().min(6)]));
+                    } else if let Err(e) = shape_ok(&b) {
+                        ctx.violation(DEC[dec], "serde:shape", format!("{}: {}", what(), e));
+                    } else {
+                        ctx.nontrivial(("C18", T::NAME, c, r, enc, dec));
+                        ctx.count("roundtrips_ok", 1);
+                    }
+                }
+            }
+        }
+    }
+}
+
+fn roundtrip_views(ctx: &mut Ctx, pc: usize, pr: usize, rng: &mut Rng) {
+    let data: Vec<u32> = (0..pc * pr).map(|_| rng.next() as u32).collect();
+    let mut parent = TooDee::from_vec(pc, pr, data);
+    for (s, e) in windows(pc, pr) {
+        for m in [false, true] {
+            let want: TooDee<u32> = TooDee::from(parent.view(s, e));
+            for enc in 0..4 {
+                let bytes = if m {
+                    let v = parent.view_mut(s, e);
+                    catches(|| encode(&v, enc))
+                } else {
+                    let v = parent.view(s, e);
+                    catches(|| encode(&v, enc))
+                };
+                let bytes = match bytes {
+                    Ok(Ok(b)) => b,
+                    o => {
+                        ctx.violation(ENC[enc], "serde:encode-failed", format!("view {:?} of {}x{}: {:?}", (s, e), pc, pr, o.map(|x| x.map(|_| ()))));
+                        continue;
+                    }
+                };
+                for dec in 0..4 {
+                    ctx.count("calls", 1);
+                    match catches(|| decode::<u32>(&bytes, dec)) {
+                        Ok(Ok(b)) if b == want && b.size() == want.size() => {
+                            ctx.nontrivial(("C18view", m, pc, pr, s, e, enc, dec));
+                            ctx.count("roundtrips_ok", 1);
+                        }
+                        o => ctx.violation(DEC[dec], "serde:view-roundtrip", format!("view(mut={}) {:?} of {}x{} via {}: {:?} expected size {:?}", m, (s, e), pc, pr, ENC[enc], o.map(|x| x.map(|b| (b.size(), b.data().to_vec()))), want.size())),
+                    }
+                }
+            }
+        }
+    }
+}
+
+pub fn run_c18(ctx: &mut Ctx) {
+    let n = nsel(ctx, 1, 2, 2, 4, 6);
+    let nrand = nsel(ctx, 0, 1, 2, 40, 400);
+    let nview = nsel(ctx, 1, 2, 2, 3, 5);
+    for shape in shapes(n) {
+        if ctx.case(|| format!("C18 owned shape={}x{}", shape.0, shape.1)) {
+            let mut rng = Rng::from_parts(ctx.seed, ctx.cur_idx, 18);
+            let (c, r) = shape;
+            roundtrip_owned::<u32>(ctx, c, r, &mut rng);
+            roundtrip_owned::<i64>(ctx, c, r, &mut rng);
+            roundtrip_owned::<String>(ctx, c, r, &mut rng);
+            roundtrip_owned::<Option<u32>>(ctx, c, r, &mut rng);
+            roundtrip_owned::<Vec<i32>>(ctx, c, r, &mut rng);
+            roundtrip_owned::<(u8, String)>(ctx, c, r, &mut rng);
+        }
+        if ctx.done() {
+            return;
+        }
+    }
+    for i in 0..nrand {
+        if ctx.case(|| format!("C18 owned random #{}", i)) {
+            let mut rng = Rng::from_parts(ctx.seed, ctx.cur_idx, 181);
+            let (c, r) = (rng.range(1, 12), rng.range(1, 12));
+            match i % 6 {
+                0 => roundtrip_owned::<u32>(ctx, c, r, &mut rng),
+                1 => roundtrip_owned::<i64>(ctx, c, r, &mut rng),
+                2 => roundtrip_owned::<String>(ctx, c, r, &mut rng),
+                3 => roundtrip_owned::<Option<u32>>(ctx, c, r, &mut rng),
+                4 => roundtrip_owned::<Vec<i32>>(ctx, c, r, &mut rng),
+                _ => roundtrip_owned::<(u8, String)>(ctx, c, r, &mut rng),
+            }
+        }
+        if ctx.done() {
+            return;
+        }
+    }
+    for shape in shapes(nview) {
+        if ctx.case(|| format!("C18 views parent={}x{}", shape.0, shape.1)) {
+            let mut rng = Rng::from_parts(ctx.seed, ctx.cur_idx, 182);
+            roundtrip_views(ctx, shape.0, shape.1, &mut rng);
+        }
+        if ctx.done() {
+            return;
+        }
+    }
+}
+
+// ================================================================================================
+// C19
+
+pub trait DocElem: DeserializeOwned + PartialEq + Debug + Clone {
+    const NAME: &'static str;
+    fn valid(rng: &mut Rng) -> (String, Self);
+    fn invalid(rng: &mut Rng) -> String;
+}
+impl DocElem for u32 {
+    const NAME: &'static str = "u32";
+    fn valid(rng: &mut Rng) -> (String, u32) {
+        let v = *rng.pick(&[0u32, 1, 5, 4294967295, 77]);
+        (v.to_string(), v)
+    }
+    fn invalid(rng: &mut Rng) -> String {
+        rng.pick(&["\"x\"", "-1", "1.5", "4294967296", "null", "[]", "{}", "true", "1e2"]).to_string()
+    }
+}
+impl DocElem for String {
+    const NAME: &'static str = "String";
+    fn valid(rng: &mut Rng) -> (String, String) {
+        let s = rng.pick(&STRS).to_string();
+        (serde_json::to_string(&s).unwrap(), s)
+    }
+    fn invalid(rng: &mut Rng) -> String {
+        rng.pick(&["1", "null", "[]", "{}", "false"]).to_string()
+    }
+}
+impl DocElem for Option<u8> {
+    const NAME: &'static str = "Option<u8>";
+    fn valid(rng: &mut Rng) -> (String, Option<u8>) {
+        if rng.chance(1, 3) {
+            ("null".into(), None)
+        } else {
+            let v = *rng.pick(&[0u8, 1, 255, 9]);
+            (v.to_string(), Some(v))
+        }
+    }
+    fn invalid(rng: &mut Rng) -> String {
+        rng.pick(&["256", "-1", "\"a\"", "[]", "1.0"]).to_string()
+    }
+}
+
+/// dimension literals with their meaning as a usize (None = not a valid dimension)
+const DIMS: [(&str, Option<u64>); 22] = [
+    ("0", Some(0)),
+    ("1", Some(1)),
+    ("2", Some(2)),
+    ("3", Some(3)),
+    ("4", Some(4)),
+    ("6", Some(6)),
+    ("4294967296", Some(1 << 32)),
+    ("9223372036854775808", Some(1 << 63)),
+    ("18446744073709551615", Some(u64::MAX)),
+    ("18446744073709551616", None),
+    ("-1", None),
+    ("1.5", None),
+    ("1e3", None),
+    ("2.0", None),
+    ("\"3\"", None),
+    ("null", None),
+    ("true", None),
+    ("[]", None),
+    ("{}", None),
+    ("[2]", None),
+    ("-9223372036854775809", None),
+    ("1E400", None),
+];
+
+#[derive(Clone, Debug)]
+enum FVal<T> {
+    Dim(&'static str, Option<u64>),
+    /// raw text + parsed elements (None if not a well-typed array)
+    Data(String, Option<Vec<T>>),
+    Other(String),
+}
+#[derive(Clone, Debug)]
+struct Field<T> {
+    key: String,
+    val: FVal<T>,
+}
+
+fn render<T>(fields: &[Field<T>], ws: bool) -> String {
+    let mut s = String::from("{");
+    for (i, f) in fields.iter().enumerate() {
+        if i > 0 {
+            s.push(',');
+        }
+        if ws {
+            s.push_str(" \n");
+        }
+        s.push_str(&serde_json::to_string(&f.key).unwrap());
+        s.push(':');
+        if ws {
+            s.push(' ');
+        }
+        match &f.val {
+            FVal::Dim(t, _) => s.push_str(t),
+            FVal::Data(t, _) => s.push_str(t),
+            FVal::Other(t) => s.push_str(t),
+        }
+    }
+    s.push('}');
+    s
+}
+
+fn gen_data<T: DocElem>(rng: &mut Rng, len: usize, corrupt: bool) -> (String, Option<Vec<T>>) {
+    let mut parts = vec![];
+    let mut vals = vec![];
+    let bad_at = if corrupt && len > 0 { Some(rng.below(len)) } else { None };
+    for i in 0..len {
+        if Some(i) == bad_at {
+            parts.push(T::invalid(rng));
+        } else {
+            let (t, v) = T::valid(rng);
+            parts.push(t);
+            vals.push(v);
+        }
+    }
+    (format!("[{}]", parts.join(",")), if bad_at.is_some() { None } else { Some(vals) })
+}
+
+/// The stated content of a (collapsed) field list if it is consistent: (cols, rows, data)
+fn consistent<T: Clone>(nc: &FVal<T>, nr: &FVal<T>, d: &FVal<T>) -> Option<(usize, usize, Vec<T>)> {
+    let c = match nc {
+        FVal::Dim(_, Some(v)) => *v,
+        _ => return None,
+    };
+    let r = match nr {
+        FVal::Dim(_, Some(v)) => *v,
+        _ => return None,
+    };
+    let data = match d {
+        FVal::Data(_, Some(v)) => v,
+        _ => return None,
+    };
+    let p = (c as u128) * (r as u128);
+    if p > u64::MAX as u128 || p != data.len() as u128 {
+        return None;
+    }
+    if (c == 0) != (r == 0) {
+        return None;
+    }
+    Some((c as usize, r as usize, data.clone()))
+}
+
+#[derive(Debug, PartialEq, Eq, Clone, Copy, Hash)]
+enum Class {
+    MustReject,
+    MustAccept,
+    Either,
+}
+
+/// Classify a field list. Returns the class and every consistent combination of stated occurrences.
+fn classify<T: Clone>(fields: &[Field<T>]) -> (Class, Vec<(usize, usize, Vec<T>)>) {
+    let ncs: Vec<&FVal<T>> = fields.iter().filter(|f| f.key == "num_cols").map(|f| &f.val).collect();
+    let nrs: Vec<&FVal<T>> = fields.iter().filter(|f| f.key == "num_rows").map(|f| &f.val).collect();
+    let ds: Vec<&FVal<T>> = fields.iter().filter(|f| f.key == "data").map(|f| &f.val).collect();
+    let unknown = fields.iter().any(|f| !matches!(f.key.as_str(), "num_cols" | "num_rows" | "data"));
+    let mut combos = vec![];
+    for a in &ncs {
+        for b in &nrs {
+            for d in &ds {
+                if let Some(x) = consistent(a, b, d) {
+                    combos.push(x);
+                }
+            }
+        }
+    }
+    if combos.is_empty() {
+        return (Class::MustReject, combos);
+    }
+    let dup = ncs.len() > 1 || nrs.len() > 1 || ds.len() > 1;
+    if unknown || dup {
+        (Class::Either, combos)
+    } else {
+        (Class::MustAccept, combos)
+    }
+}
+
+/// `from_value` sees the document after serde_json::Value collapsed duplicate keys (last one wins).
+fn collapse<T: Clone>(fields: &[Field<T>]) -> Vec<Field<T>> {
+    let mut out: Vec<Field<T>> = vec![];
+    for f in fields {
+        if let Some(p) = out.iter().position(|g| g.key == f.key) {
+            out[p] = f.clone();
+        } else {
+            out.push(f.clone());
+        }
+    }
+    out
+}
+
+fn judge<T: DocElem>(ctx: &mut Ctx, transport: usize, text: &str, fields: Option<&[Field<T>]>) {
+    ctx.count("calls", 1);
+    let res = catches(|| decode::<T>(text.as_bytes(), transport));
+    let tn = DEC[transport];
+    let doc = || text.chars().take(220).collect::<String>();
+    let res = match res {
+        Err(m) => {
+            ctx.violation(tn, "deser:panicked", format!("{} doc={}: {}", T::NAME, doc(), m));
+            return;
+        }
+        Ok(r) => r,
+    };
+    if transport == 3 && matches!(&res, Err(e) if e.starts_with("not JSON:")) {
+        // the text cannot be turned into a serde_json::Value at all: this transport does not apply
+        ctx.count("from_value_not_applicable", 1);
+        return;
+    }
+    if let Ok(a) = &res {
+        if let Err(e) = shape_ok(a) {
+            ctx.violation(tn, "deser:shape", format!("{} doc={}: {}", T::NAME, doc(), e));
+            return;
+        }
+    }
+    let fields = match fields {
+        Some(f) => f,
+        None => {
+            // unclassified (mutated / non-object) documents: never-panic and shape only
+            match res {
+                Ok(_) => ctx.count("unclassified_accepted", 1),
+                Err(_) => ctx.count("unclassified_rejected", 1),
+            }
+            return;
+        }
+    };
+    let eff: Vec<Field<T>> = if transport == 3 { collapse(fields) } else { fields.to_vec() };
+    let (class, combos) = classify(&eff);
+    ctx.seen("doc_classes", (class, transport, eff.len().min(5)));
+    match (class, res) {
+        (Class::MustReject, Ok(a)) => ctx.violation(tn, "deser:inconsistent-accepted", format!("{} doc={} -> size {:?} with {} cells", T::NAME, doc(), a.size(), a.data().len())),
+        (Class::MustReject, Err(_)) => {
+            ctx.count("rejected", 1);
+        }
+        (Class::MustAccept, Err(e)) => ctx.violation(tn, "deser:consistent-rejected", format!("{} doc={}: {}", T::NAME, doc(), e)),
+        (Class::Either, Err(_)) => {
+            ctx.count("either_rejected", 1);
+        }
+        (_, Ok(a)) => {
+            let hit = combos.iter().any(|(c, r, d)| a.size() == (*c, *r) && a.data() == &d[..]);
+            if !hit {
+                ctx.violation(tn, "deser:content-differs", format!("{} doc={} -> size {:?} data {:?}", T::NAME, doc(), a.size(), &a.data()[..a.data().len().min(6)]));
+            } else {
+                ctx.count("accepted", 1);
+            }
+        }
+    }
+}
+
+const KEYS: [&str; 7] = ["num_cols", "num_rows", "data", "extra", "num_col", "Data", ""];
+
+fn gen_doc<T: DocElem>(rng: &mut Rng, pattern: &[usize]) -> Vec<Field<T>> {
+    // choose a target shape first so that consistent documents are common
+    let dims_small = [0usize, 1, 2, 3, 4, 6];
+    let (tc, tr) = if rng.chance(1, 8) { (0, 0) } else { (*rng.pick(&dims_small[1..]), *rng.pick(&dims_small[1..])) };
+    let mut out = vec![];
+    for &k in pattern {
+        let key = KEYS[k].to_string();
+        let val = match k {
+            0 | 1 => {
+                let target = if k == 0 { tc } else { tr };
+                if rng.chance(3, 5) {
+                    let lit = DIMS.iter().find(|d| d.1 == Some(target as u64)).unwrap();
+                    FVal::Dim(lit.0, lit.1)
+                } else {
+                    let d = rng.pick(&DIMS);
+                    FVal::Dim(d.0, d.1)
+                }
+            }
+            2 => {
+                let p = tc * tr;
+                let roll = rng.below(20);
+                if roll < 11 {
+                    let (t, v) = gen_data::<T>(rng, p, false);
+                    FVal::Data(t, v)
+                } else if roll < 14 {
+                    let l = *rng.pick(&[p.saturating_sub(1), p + 1, 0, 1, 2]);
+                    let (t, v) = gen_data::<T>(rng, l, false);
+                    FVal::Data(t, v)
+                } else if roll < 17 {
+                    let (t, v) = gen_data::<T>(rng, p.max(1), true);
+                    FVal::Data(t, v)
+                } else {
+                    FVal::Data(rng.pick(&["null", "3", "\"abc\"", "{}", "{\"0\":1}", "true"]).to_string(), None)
+                }
+            }
+            _ => FVal::Other(rng.pick(&["1", "null", "[1,2]", "{\"num_cols\":2}", "\"x\""]).to_string()),
+        };
+        out.push(Field { key, val });
+    }
+    out
+}
+
+fn mutate(rng: &mut Rng, s: &str) -> Vec<u8> {
+    let mut b = s.as_bytes().to_vec();
+    if b.is_empty() {
+        return b;
+    }
+    match rng.below(5) {
+        0 => {
+            let n = rng.below(b.len());
+            b.truncate(n)
+        }
+        1 => {
+            let i = rng.below(b.len());
+            b[i] ^= 1 << rng.below(8)
+        }
+        2 => {
+            let i = rng.below(b.len());
+            let j = rng.range(i, b.len() - 1);
+            b.drain(i..=j);
+        }
+        3 => {
+            let i = rng.below(b.len());
+            let ins = rng.pick(&["0", "-", "\"", ",", "[", "]", "{", "}", ":", "1e999", "\\", "\u{0}"]).as_bytes().to_vec();
+            b.splice(i..i, ins);
+        }
+        _ => {
+            let i = rng.below(b.len());
+            let j = rng.range(i, b.len() - 1);
+            let seg = b[i..=j].to_vec();
+            b.splice(i..i, seg);
+        }
+    }
+    b
+}
+
+fn c19_pattern_case<T: DocElem>(ctx: &mut Ctx, pattern: &[usize], reps: usize) {
+    let mut rng = Rng::from_parts(ctx.seed, ctx.cur_idx, 19);
+    for rep in 0..reps {
+        let fields = gen_doc::<T>(&mut rng, pattern);
+        let text = render(&fields, rep % 3 == 1);
+        for t in 0..4 {
+            judge::<T>(ctx, t, &text, Some(&fields));
+        }
+        let (class, _) = classify(&fields);
+        let dimclass = |v: &FVal<T>| match v {
+            FVal::Dim(_, Some(0)) => 0,
+            FVal::Dim(_, Some(x)) if *x < 100 => 1,
+            FVal::Dim(_, Some(_)) => 2,
+            FVal::Dim(t, None) => 3 + (t.len() % 7),
+            FVal::Data(_, Some(v)) => 20 + v.len().min(5),
+            FVal::Data(_, None) => 30,
+            FVal::Other(_) => 40,
+        };
+        let sig: Vec<(usize, usize)> = pattern.iter().zip(fields.iter()).map(|(k, f)| (*k, dimclass(&f.val))).collect();
+        ctx.nontrivial(("C19", T::NAME, sig, class));
+        // byte-level mutations of this document: never panic, shape holds
+        if rep % 4 == 0 {
+            for _ in 0..3 {
+                let m = mutate(&mut rng, &text);
+                if let Ok(ms) = String::from_utf8(m.clone()) {
+                    for t in 0..4 {
+                        judge::<T>(ctx, t, &ms, None);
+                    }
+                } else {
+                    for t in 1..3 {
+                        ctx.count("calls", 1);
+                        if let Err(msg) = catches(|| decode::<T>(&m, t).map(|a| shape_ok(&a))) {
+                            ctx.violation(DEC[t], "deser:panicked", format!("{} non-utf8 doc {:?}: {}", T::NAME, &m[..m.len().min(80)], msg));
+                        }
+                    }
+                }
+                ctx.count("mutated_docs", 1);
+            }
+        }
+    }
+}
+
+pub fn run_c19(ctx: &mut Ctx) {
+    let (maxlen, reps) = match (ctx.scale, ctx.tier) {
+        (Scale::Miri, Tier::Quick) => (3, 1),
+        (Scale::Miri, Tier::Thorough) => (3, 2),
+        (Scale::Vg, _) => (3, 2),
+        (Scale::Native, Tier::Quick) => (4, 6),
+        (Scale::Native, Tier::Thorough) => (5, 40),
+    };
+    // every sequence of field keys up to maxlen over {num_cols, num_rows, data, unknown...}: every
+    // subset, order and duplication of the three fields plus unknown ones
+    let nk = 5usize; // first five KEYS
+    let mut patterns: Vec<Vec<usize>> = vec![vec![]];
+    let mut frontier: Vec<Vec<usize>> = vec![vec![]];
+    for _ in 0..maxlen {
+        let mut next = vec![];
+        for p in &frontier {
+            for k in 0..nk {
+                let mut q = p.clone();
+                q.push(k);
+                next.push(q);
+            }
+        }
+        patterns.extend(next.iter().cloned());
+        frontier = next;
+    }
+    // plus the two odd keys somewhere
+    patterns.push(vec![0, 1, 2, 5]);
+    patterns.push(vec![6, 0, 1, 2]);
+    for (pi, p) in patterns.iter().enumerate() {
+        // the three-field permutations get many more repetitions: they carry the accept/reject logic
+        let core = p.len() == 3 && p.contains(&0) && p.contains(&1) && p.contains(&2);
+        let reps_p = if core { reps * 40 } else if p.len() <= 3 { reps * 2 } else { reps };
+        for ty in 0..3 {
+            if ctx.case(|| format!("C19 fields={:?} elem={}", p.iter().map(|k| KEYS[*k]).collect::<Vec<_>>(), ["u32", "String", "Option<u8>"][ty])) {
+                match ty {
+                    0 => c19_pattern_case::<u32>(ctx, p, reps_p),
+                    1 => c19_pattern_case::<String>(ctx, p, reps_p.div_ceil(2)),
+                    _ => c19_pattern_case::<Option<u8>>(ctx, p, reps_p.div_ceil(2)),
+                }
+            }
+            if ctx.done() {
+                return;
+            }
+        }
+        let _ = pi;
+    }
+    // top-level non-objects and degenerate texts
+    if ctx.case(|| "C19 top-level non-objects".to_string()) {
+        for text in ["", " ", "null", "3", "\"s\"", "[]", "[1,2,3]", "[2,2,[1,2,3,4]]", "true", "{", "}", "{}", "{\"data\":[]}", "{\"num_cols\":0,\"num_rows\":0}", "[{\"num_cols\":0,\"num_rows\":0,\"data\":[]}]", "{\"num_cols\":1,\"num_rows\":1,\"data\":[1]}x", "\u{feff}{}", "{\"num_cols\":0,\"num_rows\":0,\"data\":[]}"] {
+            for t in 0..4 {
+                ctx.count("calls", 1);
+                let r = catches(|| decode::<u32>(text.as_bytes(), t));
+                match r {
+                    Err(m) => ctx.violation(DEC[t], "deser:panicked", format!("doc={:?}: {}", text, m)),
+                    Ok(Ok(a)) => {
+                        let expect_ok = text == "{\"num_cols\":0,\"num_rows\":0,\"data\":[]}";
+                        if !expect_ok {
+                            ctx.violation(DEC[t], "deser:inconsistent-accepted", format!("doc={:?} -> {:?}", text, a.size()));
+                        } else if a.size() != (0, 0) || !a.data().is_empty() {
+                            ctx.violation(DEC[t], "deser:content-differs", format!("doc={:?}", text));
+                        } else {
+                            ctx.count("accepted", 1);
+                        }
+                    }
+                    Ok(Err(e)) => {
+                        if text == "{\"num_cols\":0,\"num_rows\":0,\"data\":[]}" {
+                            ctx.violation(DEC[t], "deser:consistent-rejected", format!("doc={:?}: {}", text, e));
+                        } else {
+                            ctx.count("rejected", 1);
+                        }
+                    }
+                }
+            }
+            ctx.nontrivial(("C19top", text));
+        }
+    }
+}
